@@ -112,7 +112,7 @@ func init() {
 		Explain: "Decides structural necessary conditions on every path of consumer.go: a ConsumerMessage is only built for offsets ≥ child.offset and child.offset is then advanced to exactly that offset+1 (C03.advance); every field of the delivered message comes from the corresponding field of the parsed record/message, and the fetch request asks for (topic, partition, child.offset, fetchSize) of the same child (C03.fields/request); " +
 			"the fetch/parse hand-shake: one acks.Done per response per subscription, Add→feed→Wait→handleResponses order (C03.acks); every subscription result class is redispatched exactly once and dropped from the broker worker, a timed-out feeder resubscribes itself (C03.redispatch); tabled senders on messages and writers of child.offset (C03.who). " +
 			"NOT covered: base-offset arithmetic of v1 wrappers, partial-trailing handling and fetch-size doubling (numeric), progress under faults, decompression.",
-		Rules: []func(*Ctx){c03Advance, c03Fields, c03Request, c03Acks, c03Redispatch, c03Who},
+		Rules: []func(*Ctx){c03Advance, c03ResponseSkip, c03Fields, c03Request, c03Acks, c03Redispatch, c03Who},
 	})
 }
 
@@ -160,6 +160,24 @@ func c03Advance(c *Ctx) {
 			c.Check(isInc && g, rule, fn, "fallback-advance", st, "fallback child.offset++ only when no message was produced (len(messages)==0)",
 				"child.offset is modified outside the delivery path without the len(messages)==0 guard: offsets skipped", path)
 		}
+	}
+}
+
+// c03ResponseSkip: parseResponse itself may move child.offset only to step over an oversized message, i.e.
+// when the block holds no complete record at all.
+func c03ResponseSkip(c *Ctx) {
+	p := c.P
+	rule := "C03.advance"
+	fn := c.NeedFn(rule, "partitionConsumer.parseResponse")
+	if fn == nil {
+		return
+	}
+	reg := WholeFn(fn)
+	nrecs := p.ResultOf(0, "FetchResponseBlock.numRecords")
+	for _, s := range Info(fn).Find(StoreTo(nil, "partitionConsumer.offset")) {
+		g, path := reg.Guarded(s, Cmp{token.EQL, nrecs, ConstInt(0)})
+		c.Check(g, rule, fn, "response-level-skip-only-when-empty", s.Instr(), "parseResponse moves child.offset itself only when the block holds no complete record (oversized-message skip)",
+			"parseResponse advances child.offset although the response carried records (whose own parsing already advanced it): the next visible record is skipped", path)
 	}
 }
 
@@ -247,6 +265,38 @@ func c03Fields(c *Ctx) {
 			check(fn, lit, "Key", innerF("MessageBlock.Msg.Key"), "msg.Msg.Key (inner message)")
 			check(fn, lit, "Value", innerF("MessageBlock.Msg.Value"), "msg.Msg.Value (inner message)")
 			check(fn, lit, "Offset", AllEdges(innerF("MessageBlock.Offset"), BinOpOf(token.ADD, innerF("MessageBlock.Offset"), AnyV())), "msg.Offset (+ wrapper base when Version ≥ 1)")
+			// v1 wrapper rebasing: offset += wrapper.Offset − (offset of the last inner message), only under Version >= 1
+			if ph, ok := lit.fields["Offset"].(*ssa.Phi); ok {
+				okBase, okGuard := false, false
+				for i, e := range ph.Edges {
+					bo, isB := e.(*ssa.BinOp)
+					if !isB || bo.Op != token.ADD {
+						continue
+					}
+					base, isB2 := bo.Y.(*ssa.BinOp)
+					if !isB2 {
+						base, isB2 = bo.X.(*ssa.BinOp)
+					}
+					if isB2 && base.Op == token.SUB && outerF("MessageBlock.Offset")(base.X) && FieldLoad("MessageBlock.Offset")(base.Y) {
+						// the subtrahend is the element at index len(inner)-1
+						if u, isU := strip(base.Y).(*ssa.UnOp); isU {
+							if fa, isFA := u.X.(*ssa.FieldAddr); isFA {
+								if ld, isL := fa.X.(*ssa.UnOp); isL {
+									if ia, isIA := ld.X.(*ssa.IndexAddr); isIA && BinOpOf(token.SUB, LenOf(AnyV()), ConstInt(1))(ia.Index) {
+										okBase = true
+									}
+								}
+							}
+						}
+					}
+					pred := ph.Block().Preds[i]
+					g, _ := fi.Iteration(inner).Guarded(Item{In: lastInstr(pred)}, Cmp{token.GEQ, FieldLoad("Message.Version"), ConstInt(1)})
+					if g {
+						okGuard = true
+					}
+				}
+				c.Check(okBase && okGuard, rule, fn, "v1-rebase", ph, "relative inner offsets rebased by wrapper.Offset − last inner offset, only for message version ≥ 1", "legacy v1 inner offsets are not rebased on (wrapper offset − last inner offset) under Version ≥ 1: offsets of compressed sets are wrong (records re-delivered or skipped)", nil)
+			}
 			check(fn, lit, "Timestamp", AllEdges(innerF("MessageBlock.Msg.Timestamp"), outerF("MessageBlock.Msg.Timestamp")), "msg.Msg.Timestamp or the wrapper's under LogAppendTime")
 			check(fn, lit, "BlockTimestamp", outerF("MessageBlock.Msg.Timestamp"), "msgBlock.Msg.Timestamp")
 			check(fn, lit, "Topic", FieldLoad("partitionConsumer.topic"), "child.topic")
